@@ -10,6 +10,7 @@ report: for every type reference, whether it IS the object registered under its 
 
 BUILTIN_NAMES = ("Int", "Float", "String", "Boolean", "ID")
 INT_ATOMS = {"MININT": -2147483648, "MAXINT": 2147483647}
+ASTRAL = 'a"q\\ \U0001F600 \u00e9'
 
 
 def pv(v):
@@ -19,7 +20,7 @@ def pv(v):
     if k == "int":
         return INT_ATOMS[v["v"]] if v["v"] in INT_ATOMS else int(v["v"])
     if k in ("str", "enumv"):
-        return v["v"]
+        return ASTRAL if v["v"] == "ASTRAL" else v["v"]
     if k == "bool":
         return bool(v["v"])
     if k == "float":
@@ -62,7 +63,7 @@ def realize(a, resolvers=None, extra=None):
                                                      for f in t.get("fields", [])]))
         elif k in ("object", "interface"):
             def mk(t=t):
-                return [Field(f["name"], ref(f["type"]), args(f.get("args")), deprecation_reason=(f.get("dep") or None),
+                return [Field(f["name"], ref(f["type"]), args(f.get("args")), deprecation_reason=(ASTRAL if f.get("dep") == "ASTRAL" else (f.get("dep") or None)),
                               resolver=resolvers.get((t["name"], f["name"]))) for f in t.get("fields", [])]
             if k == "object":
                 reg[n] = ObjectType(n, mk, interfaces=(lambda t=t: [reg[i] for i in t.get("ifaces", [])]))
@@ -86,7 +87,32 @@ def tref(t):
     return {"k": "named", "n": t.name}
 
 
-def project(s, with_defaults=True, with_identity=False):
+def canon_default(value, t):
+    """Defaults are compared as GraphQL values: enum internal values are mapped back to their names."""
+    from py_gql.schema import EnumType, InputObjectType, ListType, NonNullType
+    if isinstance(t, NonNullType):
+        return canon_default(value, t.type)
+    if value is None:
+        return None
+    if isinstance(t, ListType):
+        return [canon_default(v, t.type) for v in value] if isinstance(value, (list, tuple)) else [canon_default(value, t.type)]
+    if isinstance(t, EnumType):
+        try:
+            return "enum:" + t.get_name(value)
+        except Exception:
+            return "enum?:%r" % (value,)
+    if isinstance(t, InputObjectType) and isinstance(value, dict):
+        out = {}
+        for f in t.fields:
+            if f.python_name in value:
+                out[f.name] = canon_default(value[f.python_name], f.type)
+            elif f.name in value:
+                out[f.name] = canon_default(value[f.name], f.type)
+        return out
+    return value
+
+
+def project(s, with_defaults=True, with_identity=False, with_desc=False):
     """Abstract value of a real Schema (types sorted by name; members / fields in declaration order)."""
     from py_gql.schema import EnumType, InputObjectType, InterfaceType, ObjectType, UnionType, unwrap_type
     types = []
@@ -105,7 +131,9 @@ def project(s, with_defaults=True, with_identity=False):
             chk("%s(%s:)" % (owner, x.name), x.type)
             d = {"name": x.name, "type": tref(x.type), "hasDef": x.has_default_value}
             if with_defaults and x.has_default_value:
-                d["def"] = x.default_value
+                d["def"] = canon_default(x.default_value, x.type)
+            if with_desc:
+                d["desc"] = x.description or ""
             out.append(d)
         return out
     for n, t in s.types.items():
@@ -116,6 +144,8 @@ def project(s, with_defaults=True, with_identity=False):
             for f in t.fields:
                 chk("%s.%s" % (n, f.name), f.type)
                 fields.append({"name": f.name, "type": tref(f.type), "args": args("%s.%s" % (n, f.name), f.arguments), "dep": f.deprecation_reason or ""})
+                if with_desc:
+                    fields[-1]["desc"] = f.description or ""
             d = {"k": "object" if isinstance(t, ObjectType) else "interface", "name": n, "fields": fields}
             if isinstance(t, ObjectType):
                 d["ifaces"] = [i.name for i in t.interfaces]
@@ -131,6 +161,8 @@ def project(s, with_defaults=True, with_identity=False):
             d = {"k": "input", "name": n, "fields": args(n, t.fields)}
         else:
             d = {"k": "scalar", "name": n}
+        if with_desc:
+            d["desc"] = getattr(t, "description", None) or ""
         types.append(d)
     out = {"query": s.query_type.name if s.query_type else "", "mutation": s.mutation_type.name if s.mutation_type else "",
            "subscription": s.subscription_type.name if s.subscription_type else "",
@@ -193,7 +225,7 @@ def lit(v):
     if k == "int":
         return str(pv(v))
     if k == "str":
-        return json.dumps(v["v"])
+        return json.dumps(pv(v), ensure_ascii=False)
     if k == "enumv":
         return v["v"]
     if k == "bool":
